@@ -195,6 +195,79 @@ Proof.
   exists n. exact En.
 Qed.
 
+Lemma edge_keys_complete t removal : WF t -> EdgeRowsOK t -> exists ks, edge_keys t removal = Ok ks.
+Proof.
+  intros W HE. unfold edge_keys.
+  destruct (for_loop_complete
+    (fun j acc => do l <- aget (edge_left t) j; do r <- aget (edge_right t) j;
+                  do p <- aget (edge_parent t) j; do c <- aget (edge_child t) j;
+                  do tp <- aget (node_time t) p;
+                  Ok (acc ++ [if removal then (r, fneg tp, - p, - c, j) else (l, tp, p, c, j)]))
+    (fun _ _ => True) (length (edge_left t)) 0 []) as [ks [E _]]; [exact I| |exists ks; exact E].
+  intros i s1 R _.
+  pose proof (wf_edge_right t W); pose proof (wf_edge_parent t W); pose proof (wf_edge_child t W).
+  destruct (HE i ltac:(rng)) as [RP _].
+  rewrite (aget_fat (edge_left t) i) by rng. cbn [bind].
+  rewrite (aget_fat (edge_right t) i) by rng. cbn [bind].
+  rewrite (aget_zat (edge_parent t) i) by rng. cbn [bind].
+  rewrite (aget_zat (edge_child t) i) by rng. cbn [bind].
+  rewrite (aget_fat (node_time t)) by (unfold num_nodes in RP; exact RP). cbn [bind].
+  eexists. split; [reflexivity|exact I].
+Qed.
+
+(* length of the arrays build_index installs (no assumption on the cell values) *)
+Lemma build_index_shape t t' : build_index t = Ok t' ->
+  exists I O, t' = with_index t (Some (I, O)) /\
+    length I = length (edge_left t) /\ length O = length (edge_left t).
+Proof.
+  unfold build_index. intro H. stepn H u G0. stepn H ki Gi. stepn H ko Go. inversion H; subst t'. clear H.
+  destruct (edge_keys_spec t false ki Gi) as [M1 _]. destruct (edge_keys_spec t true ko Go) as [M2 _].
+  eexists _, _. split; [reflexivity|].
+  assert (L : forall ks, map kix ks = zrange (num_edges t) -> length (map kix (sort_keys ks)) = length (edge_left t)).
+  { intros ks M. rewrite map_length, (Permutation_length (sort_keys_perm ks)), <- (map_length kix), M.
+    unfold zrange. rewrite map_length, seq_length. unfold num_edges, zlen. lia. }
+  split; apply L; assumption.
+Qed.
+
+Lemma WF_with_index t I O : WF t -> length I = length (edge_left t) -> length O = length (edge_left t) ->
+  WF (with_index t (Some (I, O))).
+Proof.
+  intros W LI LO. destruct W. constructor; try assumption.
+  intros I' O' E. simpl in E. inversion E; subst. split; assumption.
+Qed.
+
+(* soundness of tree_sequence() on tables WITHOUT an index, for the code as it is: the built
+   index is always a permutation, so finding F1 cannot arise on this path *)
+Theorem gate_unindexed_sound_lemma t n z : WF t -> idx t = None -> seqlen t = Fin z ->
+  tree_sequence_gate t = Ok n ->
+  SeqlenOK t /\ Sound.RowsValid t /\ ChildIntervalsDisjoint t /\ MutBelowParentNodeOK t.
+Proof.
+  intros W NI HL H. unfold tree_sequence_gate in H. rewrite NI in H. stepn H t' B.
+  destruct (build_index_shape t t' B) as [I [O [E [LI LO]]]]. subst t'.
+  assert (W' := WF_with_index t I O W LI LO).
+  assert (P := check_sound_partial_lemma _ n z W' HL H). destruct P as [R D MB _].
+  split; [exists z; split; [assumption|]|].
+  - destruct (Sound.gate_sound_seqlen_fin code_variant _ n z H HL) as [z' [E1 E2]]. simpl in E1. congruence.
+  - destruct R. split; [constructor; assumption|]. split; assumption.
+Qed.
+
+(* the same without the hypothesis on build_index: every collection WITHOUT an index that
+   satisfies the non-index clauses is accepted by TableCollection.tree_sequence() *)
+Theorem gate_accepts_unindexed_full t :
+  WF t -> idx t = None -> SeqlenOK t -> Sound.RowsValid t -> ChildIntervalsDisjoint t ->
+  MutBelowParentNodeOK t -> 2 * num_edges t + 1 < TSK_MAX_ID ->
+  exists n, tree_sequence_gate t = Ok n.
+Proof.
+  intros W NI SL R D MB OV.
+  assert (B : exists t', build_index t = Ok t').
+  { destruct R. unfold build_index.
+    rewrite (check_edge_ordering_complete code_variant t W SL) by assumption. cbn [bind].
+    destruct (edge_keys_complete t false W r_edge_rows) as [ki Ei]. rewrite Ei. cbn [bind].
+    destruct (edge_keys_complete t true W r_edge_rows) as [ko Eo]. rewrite Eo. cbn [bind].
+    eexists. reflexivity. }
+  destruct B as [t' B]. eapply gate_accepts_unindexed_lemma; eauto.
+Qed.
+
 Example build_index_example :
   exists t', build_index (ex_tables None) = Ok t' /\ idx t' = Some ([0; 1], [1; 0]) /\ check t' = Ok 1.
 Proof. eexists. split; [vm_compute; reflexivity|]. split; vm_compute; reflexivity. Qed.
